@@ -39,6 +39,38 @@ def run_e2e(args):
                     except Exception as e:  # noqa: BLE001
                         rec["runs"].append({"iface": iface, "split": split, "shuffle": shuffle, "T": T, "take": take, "spell": str(spell),
                                             "error": f"{type(e).__name__}: {str(e)[:200]}"})
+        # more reader threads than the split has shards (not a multiple of their number): a batch of shard paths then wraps around the
+        # cycled list — the unshuffled stream is still the one-pass sequence repeated
+        for split in [s for s in written if written[s]]:
+            N = len(written[split]); nsh = len(rec["shards"][split]) or 1
+            for iface in ("concurrent", "async", "rust", "tf"):
+                if not I.supports(iface, a["fmt"], a["comp"]):
+                    continue
+                for T in sorted({nsh + 1, 2 * nsh + 1, 16}):
+                    take = a["m"] * N + a["r"]
+                    try:
+                        got, _ = I.run_iface(ds, iface, split, shuffle=0, T=T, repeat=True, take=take)
+                        rec["runs"].append({"iface": iface, "split": split, "shuffle": 0, "T": T, "take": take, "got": got, "wrap": True})
+                    except Exception as e:  # noqa: BLE001
+                        rec["runs"].append({"iface": iface, "split": split, "shuffle": 0, "T": T, "take": take, "wrap": True, "error": f"{type(e).__name__}: {str(e)[:200]}"})
+        # a long run: well over a thousand epochs of a tiny split through one iterator (a training job left running): the stream
+        # neither ends nor fails, and stays periodic — nothing may grow with the number of epochs (stack depth, handles, counters)
+        if a.get("long"):
+            lroot = root + "_long"
+            lds, lw = I.build_dataset(lroot, a["fmt"], a["comp"], 1, [{"sub": ".", "writes": [(0, 2)]}])
+            lds = Dataset(lroot)
+            lone = [x for sh in I.safe_enumeration(lds)[0].get("train", []) for x in sh]
+            for iface, shuffle in (("sync", 0), ("concurrent", 0), ("async", 0), ("sync", 3), ("rust", 0)):
+                if not I.supports(iface, a["fmt"], a["comp"]):
+                    continue
+                take = a["long"] * 2 + 1
+                try:
+                    got, _ = I.run_iface(lds, iface, "train", shuffle=shuffle, T=2, repeat=True, take=take)
+                    rec["runs"].append({"iface": iface, "split": "train", "shuffle": shuffle, "T": 2, "take": take, "got": got, "long": True, "onepass": lone})
+                except BaseException as e:  # noqa: BLE001
+                    rec["runs"].append({"iface": iface, "split": "train", "shuffle": shuffle, "T": 2, "take": take, "long": True, "onepass": lone,
+                                        "error": f"{type(e).__name__}: {str(e)[:200]}"})
+            shutil.rmtree(lroot, ignore_errors=True)
         # tf.data with batching: the stream of examples inside the batches (batch size not dividing the split)
         for split in [s for s in written if written[s]]:
             N = len(written[split])
@@ -128,7 +160,7 @@ def run(ctx):
             plan.append({"sub": "x", "writes": [(0, eps + 1)]})
         configs = [(0, 1), (0, 3), (2, 2), (1000, 3)] if ctx.thorough else [(0, 1 + i % 3), (2 + i, 2)]
         cases.append({"root": str(ctx.scratch / f"c19_{i}"), "fmt": fmt, "comp": comp, "eps": eps, "plan": plan, "configs": configs,
-                      "m": ctx.pick(3, 6), "r": rng.choice([0, 1, 2]), "spell": i,
+                      "m": ctx.pick(3, 6), "r": rng.choice([0, 1, 2]), "spell": i, "long": (ctx.pick(1300, 5000) if i == 0 else 0),
                       # (no checksum algorithm at all is a legal configuration; every other case continues writing through the handle that iterated)
                       "hashes": [None, [], ["sha256"]][i % 3], "append": [0, 3][i % 2] if i % 3 != 1 else 3})
     recs = []
@@ -145,9 +177,10 @@ def run(ctx):
             onepass = run_.get("onepass") or [x for sh in r["shards"][split] for x in sh]
             N = len(onepass)
             sig = {"kind": "repeat", "iface": run_["iface"], "spelling": run_.get("spell", "True"), "shuffled": run_["shuffle"] > 0, "interleaved": bool(run_.get("interleaved")), "batched": bool(run_.get("batch")),
-                   "after_append": bool(run_.get("after_append"))}
+                   "after_append": bool(run_.get("after_append")), "long_run": bool(run_.get("long")), "threads_gt_shards": bool(run_.get("wrap"))}
             if "error" in run_:
-                ctx.report(dict(sig, kind="repeat-error"), f"{run_['iface']} repeat=True raised {run_['error']}", {"case": r["case"], "run": run_}); continue
+                ctx.report(dict(sig, kind="repeat-error"), f"{run_['iface']} repeat=True raised {run_['error']}" + (f" during a run of {run_['take'] // 2} epochs of a two-example split" if run_.get("long") else ""),
+                           {"case": r["case"], "run": {k: v for k, v in run_.items() if k != "got"}}); continue
             got = run_["got"]
             if len(got) < run_["take"]:
                 ctx.report(dict(sig, kind="stream-ended"), f"{run_['iface']} shuffle={run_['shuffle']}: repeating stream ended after {len(got)} < {run_['take']} elements",
@@ -168,7 +201,7 @@ def run(ctx):
             distinct.add((r["case"]["fmt"], run_["iface"], run_["shuffle"] > 0, min(run_["T"], 3), N > r["case"]["eps"]))
     ctx.cov.update({
         "evaluations": nruns, "distinct_nontrivial": len(distinct), "traces_validated_against_impl": nruns,
-        "rule": "datasets with 2-3 splits (flat and nested shard lists); every interface with repeat enabled — spelled True, left at its default, numpy.True_, 1 — (tf.data also batched with a batch size that does not divide the split); prefix of m*N+r elements (m=3 quick, 6 thorough); "
+        "rule": "datasets with 2-3 splits (flat and nested shard lists); every interface with repeat enabled — spelled True, left at its default, numpy.True_, 1 — (tf.data also batched with a batch size that does not divide the split); prefix of m*N+r elements (m=3 quick, 6 thorough); reader thread counts above the number of shards (nsh+1, 2nsh+1, 16); one run of 1300 (5000) epochs of a two-example split per interface; "
                 "unshuffled prefix compared with the model's stream formula onepass[k mod N]; distinct = (format, interface, shuffled?, T class, multi-shard?)",
         "samples": [{"case": r["case"], "run": r["runs"][0]} for r in recs[:2]],
         "input_distribution": {"by_iface": collections.Counter(x["iface"] for r in recs for x in r["runs"]),
